@@ -367,7 +367,7 @@ def gen_program(rng, k, retry, pid):
     calls = []
     for c in range(k):
         outs = [rng.choice([["ok"], ["exc", "TRANSIENT"], ["exc", "PERMANENT"], ["exc", "SERVER_ERROR"]]) for _ in range(2)]
-        calls.append({"meth": rng.choice(["call", "execute"]), "suspends": rng.randint(1, 2), "dur": rng.choice([0.0, G, 0.25]), "outcomes": outs,
+        calls.append({"meth": rng.choice(["call", "execute"]), "suspends": rng.randint(1, 2), "dur": rng.choice([0.0, G, 0.25, 0.25, rcv, rcv + G]), "outcomes": outs,
                       "start_gap": rng.choice([0.0, 0.0, G, 2 * G]) if init in ("almost", "boundary") else 0.0, "abort": rng.random() < 0.15})
     return {"id": pid, "breaker": {"threshold": th, "window": 10.0, "recovery": rcv, "trip_on": ["TRANSIENT", "SERVER_ERROR"], "pre": pre, "init": init}, "retry": retry, "calls": calls}
 
